@@ -6,7 +6,9 @@ import PyxisVerif.Model.Lexer
 `printK` is the token-level printer (the inverse of `Parse.parseK` on well-formed modules,
 `Props/C18.lean`); `tr` chooses whether the `,`/`;`-terminated lists end with their
 separator.  `spell` writes one token; `printText` puts one blank after every token, except
-after a punctuation character that is marked `joint` (`::`, `->`).
+after a punctuation character that is marked `joint` (`::`, `->`).  `render ts τ` (second half
+of the file) writes tokens under an arbitrary lay-out `τ : Trivia`; `Trivia.ofSeed` is a
+deterministic pseudo-random lay-out for the checks.
 -/
 namespace PyxisVerif
 namespace Print
@@ -287,43 +289,78 @@ def blockDocOk (inner : Bool) (t : List Char) : Bool :=
 /-- the doc attribute starting at the head of the list, if there is one:
     (inner, text, number of tokens, rest) -/
 def docAttr? : List K → Option (Bool × String × Nat × List K)
-  | .punct '#' _ :: .op .bracket :: .ident "doc" :: .punct '=' _ :: .str s :: .cl .bracket :: r =>
-    some (false, s, 6, r)
-  | .punct '#' _ :: .punct '!' _ :: .op .bracket :: .ident "doc" :: .punct '=' _ :: .str s ::
-      .cl .bracket :: r => some (true, s, 7, r)
+  | .punct '#' false :: .op .bracket :: .ident "doc" :: .punct '=' false :: .str s :: .cl .bracket ::
+      r => some (false, s, 6, r)
+  | .punct '#' false :: .punct '!' false :: .op .bracket :: .ident "doc" :: .punct '=' false ::
+      .str s :: .cl .bracket :: r => some (true, s, 7, r)
   | _ => none
 
 def spellWith (τ : Trivia) (i : Nat) : K → List Char
   | .int v => spellInt (τ.int i) v
   | k => spell k
 
+/-- the doc comment to write for the doc attribute at the head of the list, when the lay-out
+    asks for one and the text allows it: (inner, text, block?, number of tokens, rest) -/
+def docChoice (τ : Trivia) (i : Nat) (ks : List K) : Option (Bool × List Char × Bool × Nat × List K) :=
+  match docAttr? ks with
+  | some (inner, s, n, rest) =>
+    match τ.doc i with
+    | .line => if lineDocOk inner s.toList then some (inner, s.toList, false, n, rest) else none
+    | .block => if blockDocOk inner s.toList then some (inner, s.toList, true, n, rest) else none
+    | .attr => none
+  | none => none
+
+/-- `///text` + line feed, `//!text` + line feed, `/**text*/`, `/*!text*/` -/
+def docText (inner : Bool) (t : List Char) (block : Bool) : List Char :=
+  if block then '/' :: '*' :: (if inner then '!' else '*') :: t ++ ['*', '/']
+  else '/' :: '/' :: (if inner then '!' else '/') :: t ++ ['\n']
+
 /-- `fuel` = number of tokens -/
 def renderK (τ : Trivia) : Nat → Nat → List K → List Char
   | 0, _, _ => []
   | _ + 1, _, [] => []
   | f + 1, i, k :: ks =>
-    let plain := spellWith τ i k ++ gapText k ks.head? (τ.gap i) ++ renderK τ f (i + 1) ks
-    match docAttr? (k :: ks) with
-    | some (inner, s, n, rest) =>
-      let t := s.toList
-      let last := i + n - 1
-      match τ.doc i with
-      | .line =>
-        if lineDocOk inner t then
-          '/' :: '/' :: (if inner then '!' else '/') :: t ++ '\n' ::
-            gapText (.cl .bracket) rest.head? (τ.gap last) ++ renderK τ f (i + n) rest
-        else plain
-      | .block =>
-        if blockDocOk inner t then
-          '/' :: '*' :: (if inner then '!' else '*') :: t ++ '*' :: '/' ::
-            gapText (.cl .bracket) rest.head? (τ.gap last) ++ renderK τ f (i + n) rest
-        else plain
-      | .attr => plain
-    | none => plain
+    match docChoice τ i (k :: ks) with
+    | some (inner, t, block, n, rest) =>
+      docText inner t block ++ gapText (.cl .bracket) rest.head? (τ.gap (i + n - 1)) ++
+        renderK τ f (i + n) rest
+    | none => spellWith τ i k ++ gapText k ks.head? (τ.gap i) ++ renderK τ f (i + 1) ks
 
 /-- the text of a token list under the lay-out choices `τ` -/
 def render (ts : List Tok) (τ : Trivia) : String :=
   String.ofList (piecesText τ.lead ++ renderK τ ts.length 0 (ts.map (·.k)))
+
+/-! ### a deterministic pseudo-random lay-out (for the checks) -/
+
+/-- 64-bit mixing of a seed and an index -/
+def mix (a b : Nat) : Nat :=
+  let x := (a * 6364136223846793005 + b * 1442695040888963407 + 1013904223) % 18446744073709551616
+  let x := ((x ^^^ (x >>> 29)) * 0xBF58476D1CE4E5B9) % 18446744073709551616
+  x ^^^ (x >>> 32)
+
+/-- the gaps `Trivia.ofSeed` draws from: nothing, blanks, tabs, line breaks, `//` comments,
+    (nested) block comments and mixtures – all of them valid pieces -/
+def gapChoices : List (List Piece) := [
+  [], [], [.ws ' '], [.ws ' '], [.ws ' '], [.ws ' ', .ws ' '], [.ws '\n'], [.ws '\t'],
+  [.ws '\n', .ws ' ', .ws ' ', .ws ' ', .ws ' '], [.ws '\r', .ws '\n'], [.ws ' ', .ws '\t', .ws '\n'],
+  [.line " comment".toList], [.ws ' ', .line "".toList], [.line " a // b /* c".toList, .ws ' '],
+  [.block " b ".toList], [.block "".toList], [.ws ' ', .block " a /* b */ c ".toList, .ws ' '],
+  [.block " two\nlines ".toList, .ws '\n'], [.block "ERROR".toList],
+  [.ws ' ', .block "x".toList, .ws ' ', .line " y".toList, .ws ' '] ]
+
+/-- a lay-out derived from `seed` and the token index: gaps from `gapChoices`, integers in
+    decimal / hex / octal / binary with `_` separators and either letter case, doc attributes
+    as attribute / `///` / `/** */`, sometimes a leading comment -/
+def Trivia.ofSeed (seed : Nat) : Trivia :=
+  { lead := if mix seed 1 % 3 = 0 then gapChoices.getD (mix seed 2 % gapChoices.length) [] else []
+    gap := fun i => gapChoices.getD (mix seed (3 * i + 100) % gapChoices.length) []
+    int := fun i =>
+      let h := mix seed (3 * i + 101)
+      { base := [Base.dec, .dec, .hex, .hex, .oct, .bin].getD (h % 6) .dec
+        lower := (h / 8) % 2 = 0
+        lead := if (h / 16) % 4 = 0 then 1 else 0
+        after := [(h / 64) % 4 / 3, (h / 256) % 3 / 2, (h / 1024) % 2, 0, (h / 4096) % 2] }
+    doc := fun i => [DocStyle.attr, .line, .block].getD (mix seed (3 * i + 102) % 3) .attr }
 
 end Print
 end PyxisVerif
